@@ -148,6 +148,29 @@ def main():
         res["digests"].append(core.digest_of(o)[:20])
         if n in want or job.get("all_outcomes"):
             res["outcomes"][str(n)] = core.short(o, 1500)
+    if job.get("overlaps") and not sub:
+        # several parser objects of this process alive at once: all constructed first, then run in reverse order.  The
+        # same little history is executed under a valid cache for the baseline, so only a dependence on the CACHE STATE
+        # (e.g. objects sharing freshly generated tables) can make a difference here.
+        res["overlap_digests"] = []
+        for group in job["overlaps"]:
+            objs = []
+            for it in group:
+                try:
+                    objs.append(DDLParser(it["ddl"], **it.get("flags", {})))
+                except BaseException as e:  # noqa
+                    objs.append(e)
+            outs = []
+            for it, p in reversed(list(zip(group, objs))):
+                if isinstance(p, BaseException):
+                    outs.append(["ctor-exc", type(p).__name__])
+                    continue
+                try:
+                    outs.append(["ok", core.canon(p.run(**it.get("run", {})))])
+                except BaseException as e:  # noqa
+                    outs.append(core.outcome_of_exception(e))
+            res["overlap_digests"].append([core.digest_of(o)[:20] for o in outs])
+            del objs
     if job.get("reference_table") and not sub:
         # the tables a parser of this process RUNS WITH, after the process parsed a batch of scripts one after another
         # (no forks): they must still be exactly the tables of the declared grammar
